@@ -13,7 +13,7 @@ def povm_is_identity_sum_rtol : Rat := (mkRat (1) 100000)
 /-- quara/objects/gate.py:581 `np.allclose(hs[0], expected_row, atol=atol, rtol=0.0)` -/
 def gate_is_tp_row_rtol : Rat := (0 : Rat)
 
-/-- quara/objects/gate.py:599 `np.isclose(trace_after_mapped, trace_before_mapped, atol=atol, rtol=0.0)` -/
+/-- quara/objects/gate.py:600 `np.isclose(trace_after_mapped, trace_before_mapped, atol=atol, rtol=0.0)` -/
 def gate_is_tp_trace_rtol : Rat := (0 : Rat)
 
 /-- quara/utils/matrix_util.py:101 `allclose(matrix, adjoint, atol=atol, rtol=0.0)` -/
